@@ -385,6 +385,34 @@ def input_trigger(user):
     return None
 
 
+# the documented defaults of the two sides (user guide, input.rst): what `checkInputSection_completed` proves of the
+# model is evaluated here on the implementation's result
+DOC_DEFAULTS = {
+    "left": (("nodata", -9999), ("mask", None), ("classif", None), ("segm", None)),
+    "right": (("nodata", -9999), ("mask", None), ("classif", None), ("segm", None), ("disp", None)),
+}
+MAGIC = {"NaN": float("nan"), "inf": float("inf"), "-inf": float("-inf")}
+
+
+def completed_section(user):
+    """the user's section completed with the documented defaults: defaults first (in place), then the user's new
+    keys in the user's order, the three magic strings rewritten; None when the section has not the two-sides shape
+    or holds a dictionary value (then nothing is claimed here)"""
+    inp = user.get("input") if isinstance(user, dict) else None
+    if not isinstance(inp, dict) or set(inp) != {"left", "right"}:
+        return None
+    sides = {}
+    for side in ("left", "right"):
+        s = inp[side]
+        if not isinstance(s, dict) or any(isinstance(v, dict) for v in s.values()):
+            return None
+        d = dict(DOC_DEFAULTS[side])
+        for k, v in s.items():
+            d[k] = MAGIC[v] if isinstance(v, str) and v in MAGIC else v
+        sides[side] = d
+    return {"input": sides}
+
+
 def input_case(env: Env, report, user_sym, tags, label="input"):
     ci = env.ci
     user = materialise(user_sym, env.files)
@@ -407,6 +435,13 @@ def input_case(env: Env, report, user_sym, tags, label="input"):
     report.count("input." + ("accepted" if status == "ok" else out))
     if not ci.same_value(before, user):
         fail(report, "input_accept_iff_documented", "input_mutated", case, impl, "check_input_section changed the user's dictionary")
+    if status == "ok":
+        expected = completed_section(user)
+        if expected is not None:
+            report.hit("input_accept_iff_documented:completed_with_defaults")
+            if ci.to_wire(expected) != impl["out"]:
+                fail(report, "input_accept_iff_documented", "result_not_completed_with_defaults", case, impl,
+                     "the returned section is not the user's section completed with the documented defaults")
     verdict = model["verdict"]
     if verdict != "undecided":
         report.hit("input_accept_iff_documented")
